@@ -215,6 +215,51 @@ func RunHash(outDir string, seed int64, tier string) error {
 			}
 		}
 	}
+	// ---- every bit of a member index is hashed ----
+	// groups that differ in ONE bit of ONE member's index (all 32 bits of the uint32), and in
+	// boundary indices (65535 / 65536 / 2^31 / 2^32-1, 3 vs 65539), must differ in group hash and in
+	// the genesis seed derived from it; a few of them are also cases for the model
+	for _, sch := range g.sch {
+		grp, _ := g.group(sch, groupOpts{n: 2, id: "default"})
+		grp.Nodes[0].Index, grp.Nodes[1].Index = 3, 1<<20+5
+		baseHash := cloneGroup(grp).Hash()
+		baseSeed := cloneGroup(grp).GetGenesisSeed()
+		check := func(p *key.Group, j int, what string, emitCase bool) {
+			rep.Count("monitor/group-index-bits")
+			if p.Nodes[0].Index == p.Nodes[1].Index {
+				return
+			}
+			var h []byte
+			if emitCase {
+				h = e.groupCase(p, "indexbit")
+			} else {
+				h = cloneGroup(p).Hash()
+			}
+			seed := cloneGroup(p).GetGenesisSeed()
+			if bytes.Equal(h, baseHash) || bytes.Equal(seed, baseSeed) {
+				rep.Fail("C17-group-hash-insensitive-to-index", "two groups that differ only in one member's index have the same group hash / derived genesis seed",
+					map[string]interface{}{"scheme": sch.Name, "member": j, "change": what, "index_before": grp.Nodes[j].Index, "index_after": p.Nodes[j].Index,
+						"other_member_index": grp.Nodes[1-j].Index, "group_hash_before": fmt.Sprintf("%x", baseHash), "group_hash_after": fmt.Sprintf("%x", h),
+						"same_hash": bytes.Equal(h, baseHash), "same_derived_seed": bytes.Equal(seed, baseSeed)})
+			}
+		}
+		e.groupCase(grp, "indexbit-base")
+		for j := 0; j < 2; j++ {
+			for b := uint(0); b < 32; b++ {
+				p := cloneGroup(grp)
+				p.Nodes[j].Index ^= 1 << b
+				check(p, j, fmt.Sprintf("bit %d flipped", b), j == 0 && (b == 0 || b == 15 || b == 16 || b == 31))
+			}
+			for _, idx := range []uint32{0, 65535, 65536, 65539, 1 << 31, 1<<32 - 1, 3 + 5*65536} {
+				if idx == grp.Nodes[j].Index {
+					continue
+				}
+				p := cloneGroup(grp)
+				p.Nodes[j].Index = idx
+				check(p, j, "boundary index", j == 0 && (idx == 65539 || idx == 1<<32-1))
+			}
+		}
+	}
 	// ---- malformed / boundary stream (model must still agree) ----
 	for _, sch := range g.sch {
 		grp, _ := g.group(sch, groupOpts{n: 3, withKey: true, id: "x"})
